@@ -10,22 +10,30 @@ try:
 except Exception:  # pragma: no cover
     Unresolvable = Exception
 
-STRING_PREDS = {"f1": lambda s: s.startswith("a"), "f2": lambda s: len(s) >= 2, "f3": lambda s: s.endswith("z")}
-NUMBER_PREDS = {"n1": lambda x: x == x and x not in (float("inf"), float("-inf")), "n2": lambda x: x >= 0, "n3": lambda x: x <= 1}
+STRING_PREDS = {"f1": lambda s: s.startswith("a"), "f2": lambda s: len(s) >= 2, "f3": lambda s: s.endswith("z"), "id": lambda s: len(s) > 0}
+NUMBER_PREDS = {"n1": lambda x: x == x and x not in (float("inf"), float("-inf")), "n2": lambda x: x >= 0, "n3": lambda x: x <= 1, "id": lambda x: x > 0}
 
 fc = FormatChecker(formats=())
-def make(names, preds, typ):
-    def check(v):
-        if isinstance(v, bool) or not isinstance(v, typ):
-            return True
-        return all(preds[n](v) for n in names)
-    return check
+# one format name can be registered as a string format and as a number format ("id"): a checker dispatches on the
+# instance's type and ignores instances of other types (as format assertions do)
+by_name = {}
 import itertools
 for table, typ in ((STRING_PREDS, str), (NUMBER_PREDS, (int, float))):
     keys = list(table)
     for r in (1, 2, 3):
         for combo in itertools.permutations(keys, r):
-            fc.checks(" and ".join(combo))(make(combo, table, typ))
+            by_name.setdefault(" and ".join(combo), []).append((typ, combo, table))
+def make(entries):
+    def check(v):
+        if isinstance(v, bool):
+            return True
+        for typ, names, preds in entries:
+            if isinstance(v, typ):
+                return all(preds[n](v) for n in names)
+        return True
+    return check
+for name, entries in by_name.items():
+    fc.checks(name)(make(entries))
 
 def pointer_get(doc, ptr):
     if ptr in ("", "#"):
